@@ -34,6 +34,8 @@ def x_obligations(tier):
                      bound=f"search = {pre!r} + t + {suf!r}, EVERY str t with len(t) <= {n}; log calls not elided"))
     o.append(Obl("C07-kernel-or_on_path", M, "kernel_or_path", env={"VF_N": "1" if tier == "quick" else "2"}, timeout=T, family="C07-kernel", bound="3 segments of symbolic text"))
     o.append(Obl("C07-kernel-handle_extension", M, "kernel_ext", env={"VF_N": "4" if tier == "quick" else "5"}, timeout=T, family="C07-kernel"))
+    o.append(Obl("C07-history[caches on]", M, "history", env={"VF_CACHES": "1"}, timeout=T, family="C07-history",
+                 bound="ordered pairs of 12 related searches (or-lists, their branches, aliases, their members) with spil's caches ON: the second answer equals the reference"))
     o.append(Obl("C07-reach", M, "reach", env={"VF_N": "1", "VF_PRE": "h/", "VF_SUF": "/**"}, timeout=150, expect="refute", family="C07-twin"))
     return o
 
